@@ -13,7 +13,7 @@ variables of the packages this property's code lives in, the functions (other th
 assign to them or call methods on them, and the fields of the property's struct types. The model is
 a pure function of the arguments and of these fields; a new variable, writer or field is state the
 model does not know of. -/
-def stateC17 : List (String × String) := [("globals:scale", ""), ("globalwrites:scale", ""), ("fields:scale.Linear", "Min:float64 Max:float64 Base:int Clamp:bool"), ("fields:scale.Log", "private:struct{} Min:float64 Max:float64 Base:int Clamp:bool"), ("fields:scale.TickOptions", "Max:int MinLevel:int MaxLevel:int"), ("fields:scale.linearTicker", "s:*Linear roundOut:bool"), ("fields:scale.logTicker", "s:*Log roundOut:bool")]
+def stateC17 : List (String × String) := [("globals:scale", ""), ("globalwrites:scale", ""), ("fields:scale.Linear", "Min:float64 Max:float64 Base:int Clamp:bool"), ("fields:scale.Log", "private:struct{} Min:float64 Max:float64 Base:int Clamp:bool"), ("fields:scale.TickOptions", "Max:int MinLevel:int MaxLevel:int"), ("fields:scale.linearTicker", "s:*Linear roundOut:bool"), ("fields:scale.logTicker", "s:*Log roundOut:bool"), ("funcs:scale", "n=30 fnv64a=1f1f5241e57ecbaa")]
 
 /-- the source has exactly the package-level variables, writers and struct fields the model accounts for -/
 theorem state_C17 : holdsAll stateC17 = true := by decide +kernel
